@@ -1,89 +1,13 @@
-"""Per-property configuration of the checks (see DESIGN.md section 6)."""
+"""Per-property configuration of the checks: one file per property in lib/props.d/<id>.py
+defining PROP = {...} (counts per tier, rule, assumptions, partial, optional model_input / extra /
+trusted_base / timeout / shard)."""
+import os
 
-PROPS = {
-    "C09": {
-        "counts": {"quick": 160, "thorough": 6000},
-        "rule": "one case = a WAL program (append/batch/rotate/reopen/read-from) run through pkg/wal and the "
-                "extracted WalCodec model; file bytes (length+CRC), replayed entries, statuses and sequence "
-                "numbers compared; non-trivial = at least 2 entries appended and (a fragmented entry or a "
-                "batch or more than one file); distinct by case text",
-        "trusted_base": [],
-        "assumptions": ["bufio/os deliver the bytes written; file names sort in creation order (UnixNano timestamps)"],
-        "partial": "",
-    },
-    "C01": {
-        "counts": {"quick": 240, "thorough": 12000},
-        "rule": "one case = a sequential program over the embedded API (put/delete/get/ApplyBatch/transaction "
-                "commit+rollback/flush/close+reopen/layer dump) with a small memtable so that data moves through "
-                "active table, immutable tables and SSTables; every Get, the reported last sequence and the "
-                "logical content of every layer are compared with the extracted Engine model; oracle = map replay "
-                "of the acknowledged writes; non-trivial = data in >= 2 kinds of layers and at least one "
-                "overwrite/delete of a key after a flush or reopen; distinct by case text",
-        "assumptions": ["background flush goroutine parked at a verifhook gate (layer placement decided by the "
-                        "program's explicit flushes); age-based memtable switching disabled (MaxMemTableAge=0)"],
-        "partial": "single client; concurrency is C06",
-    },
-    "C08": {
-        "counts": {"quick": 200, "thorough": 10000},
-        "rule": "same programs as C01 weighted to flush (WAL rotation) and reopen; the last sequence reported by "
-                "statistics after every write, after every reopen, and the next WAL sequence are compared with "
-                "the model; oracle = strictly greater after every acknowledged write, never smaller after reopen; "
-                "non-trivial as for C01",
-        "assumptions": ["as C01"],
-        "partial": "",
-    },
-    "C18": {
-        "counts": {"quick": 400, "thorough": 30000},
-        "rule": "sequential cases: insert/delete sequences with arbitrary (non-monotone, repeated, extreme) sequence "
-                "numbers on pkg/memtable.MemTable, with Get, full iteration, Seek, SetImmutable, compared with the "
-                "extracted Memtable model and with an independent sort-based oracle; every 10th case is concurrent: "
-                "one writer, three readers doing iteration/Get, each observation checked (sorted, nothing missing that "
-                "was inserted before it began, nothing invented); non-trivial = a key with several versions and >= 3 inserts",
-        "assumptions": ["Go atomics are sequentially consistent (skip list next pointers are atomic.Pointer)"],
-        "partial": "concurrent clause: proved on the store-by-store model (SkipConc.v, see Props/C18.v for what is "
-                   "complete); real interleavings are sampled",
-    },
-    "C10": {
-        "counts": {"quick": 32, "thorough": 1200},
-        "rule": "per case a log is written through pkg/wal; small logs: EVERY truncation offset and every byte position x "
-                "{xor 1, xor 0x80, :=0, :=0xff, +1} of the newest file is replayed by wal.ReplayWALFile and by the extracted "
-                "WalCodec model (entry count, status, digest compared); logs with a fragmented entry: sampled cuts and flips "
-                "incl. record headers; directory replays with the newest file cut (older files must stay); every 4th case "
-                "drives the engine: damage the newest log of a closed database, reopen (must succeed, state = some prefix "
-                "state, no backup of logs), write more, reopen again (post-recovery writes recovered). Oracle: entries "
-                "completely before the first damaged byte recovered in order, nothing returned that was not appended. "
-                "non-trivial = >= 2 entries and > 10 damaged replays",
-        "assumptions": ["CRC-32 detects the damage: the theorem's escape clause (checksum accepted altered bytes) is the only "
-                        "way a single altered byte can change an entry"],
-        "partial": "process/file-system level effects beyond cut and byte alteration of the newest file are not modelled",
-    },
-    "C11": {
-        "counts": {"quick": 200, "thorough": 5000},
-        "rule": "one case = one table written by sstable.Writer from a strictly ascending entry list (1..3000 entries, "
-                "15/16/17/32/33 entries, 1..7 blocks of 64 KB, long shared prefixes, binary keys, tombstones and empty "
-                "values) and read back through sstable.Reader: iterator scripts (SeekToFirst/Seek/Next/SeekToLast, raw and "
-                "through IteratorAdapter; ~30 seeks at present/between/before/after/block-boundary targets), Get, the "
-                "block iterator itself on a data block and on the index block (Seek/SeekForPrev/SeekToLast/Next), byte-exact "
-                "layout of every region (data blocks, filter section, index block, footer with the timestamp masked; "
-                "footer.Encode with a given timestamp and xxhash.Sum64 compared exactly), and single-byte alterations "
-                "(16 cases = 2 small files x every byte x {bit flip, 0x00, 0xff, +1}; sampled positions elsewhere), each "
-                "observed through a full scan plus Get/Seek of probes; all compared with the extracted SSTable/Block/SSTFile "
-                "models. Oracle = positions tracked in the sorted input list; for altered files: open error, or only written "
-                "entries in order, never a crash. non-trivial = at least 2 entries and at least one scan, seek, block script "
-                "or alteration; distinct by case text",
-        "assumptions": ["the file system returns the bytes written",
-                        "NewBloomFilter(0.01, 1000) yields 9586 bits and 7 hash functions (floating point; the stored filter "
-                        "header is compared byte for byte on every run)",
-                        "an altered block or footer is accepted only if the checksum comparison itself accepts the altered "
-                        "bytes (XXH64 collision, or the legacy-version footer comparison): the explicit escape clause of "
-                        "C11_corrupt_block / C11_corrupt_footer"],
-        "partial": "proved: logical layer for arbitrary partitions, cut rule, block and footer round trips, the whole file "
-                   "(OpenReader on Finish's bytes reads back es: C11_file_reads_back), concrete filter without false "
-                   "negatives, single altered byte per region (block, footer) and the only-verified-blocks invariant. "
-                   "Kept as definitions: C11_corrupt_statement (composition of the region lemmas over a whole file) and "
-                   "C11_block_seek_statement (binary search over restart points on bytes = position in the list; checked "
-                   "by the block scripts of the correspondence and by ex_block_seek). Guards: key 1..65535 bytes, value "
-                   "< 2^32-1 bytes, file < 4 GB; outside them see C11_empty_key_refuted, C11_long_key_refuted and the "
-                   "corpus guard-* cases",
-    },
-}
+PROPS = {}
+_d = os.path.join(os.path.dirname(os.path.abspath(__file__)), "props.d")
+for _fn in sorted(os.listdir(_d)):
+    if _fn.endswith(".py"):
+        _g = {}
+        with open(os.path.join(_d, _fn)) as _f:
+            exec(compile(_f.read(), _fn, "exec"), _g)
+        PROPS[_fn[:-3]] = _g["PROP"]
